@@ -16,6 +16,7 @@
     chain's alias (`chains_alias_equals_earlier_chain_id_counterexample`).
 -/
 import DymVerif.Lemmas.KeysAddr2
+import DymVerif.Lemmas.KeysAddrLit
 import DymVerif.Lemmas.KeysAddrTable
 namespace DymVerif.Props.C19Addr
 open DymVerif DymVerif.Keys
@@ -30,6 +31,29 @@ theorem chains_validation_unique_among_all (t : Chains) (h : validChains t = tru
       (∀ r ∈ t, ∀ a ∈ r.aliases, validAlias a = true) :=
   let w := validChains_wf h
   ⟨w.nodup, w.chains, w.aliases⟩
+
+/-- … and refuses nothing else: the validation accepts EXACTLY the tables whose chain-ids and aliases
+    are well formed and pairwise distinct among all -/
+theorem chains_validation_iff (t : Chains) :
+    validChains t = true ↔ ((tableNames t).Nodup ∧ (∀ r ∈ t, validChainIdFormat r.chainId = true) ∧
+      (∀ r ∈ t, ∀ a ∈ r.aliases, validAlias a = true)) :=
+  ⟨chains_validation_unique_among_all t, fun ⟨h1, h2, h3⟩ => validChains_of_wf ⟨h1, h2, h3⟩⟩
+
+/-- the order of the records does not matter to the validation (in particular a chain-id and an equal
+    alias are refused whichever comes first) -/
+theorem chains_validation_order_free (t : Chains) : validChains t.reverse = validChains t := by
+  have key : ∀ t : Chains, validChains t = true → validChains t.reverse = true := by
+    intro t h
+    obtain ⟨h1, h2, h3⟩ := (chains_validation_iff t).mp h
+    refine (chains_validation_iff t.reverse).mpr ⟨?_, fun r hr => h2 r (List.mem_reverse.mp hr),
+      fun r hr => h3 r (List.mem_reverse.mp hr)⟩
+    exact tableNames_reverse_nodup t h1
+  cases h : validChains t with
+  | true => exact key t h
+  | false =>
+    cases h' : validChains t.reverse with
+    | false => rfl
+    | true => have := key _ h'; rw [List.reverse_reverse, h] at this; exact absurd this (by simp)
 
 /-- an alias names exactly one chain: two records that list the same alias are one record -/
 theorem alias_names_one_chain (t : Chains) (h : validChains t = true) (r r' : ChainRec) (a : Bytes)
@@ -160,6 +184,20 @@ theorem dymname_address_parse_format_dot (bech : Bytes → Bool) (parts : List B
   rw [format_eq_glue parts name handle 46 (fun p hp' => validDymName_clean (hp p hp'))]
   exact parseAddr_glue bech parts name handle 46 (Or.inl rfl) hp hn hh
 
+/-- the same for the statement-by-statement model of `ParseDymNameAddress` (`parseAddrLit`: Go's
+    `LastIndex` / `IndexRune` arithmetic, the "||" test, `FieldsFunc`): on the formatter's texts every
+    guard passes and the same chunks are cut -/
+theorem dymname_address_parse_format_lit (bech : Bytes → Bool) (parts : List Bytes) (name handle : Bytes)
+    (hp : ∀ p ∈ parts, validDymName p = true) (hn : validDymName name = true)
+    (hh : (validChainIdFormat handle || validAlias handle) = true) :
+    parseAddrLit bech (formatAddr (joinDot parts) name handle) = some (joinDot parts, name, handle) ∧
+      parseAddrLit bech (formatAddrDot (joinDot parts) name handle) = some (joinDot parts, name, handle) := by
+  unfold formatAddr formatAddrDot
+  rw [format_eq_glue parts name handle 64 (fun p hp' => validDymName_clean (hp p hp')),
+    format_eq_glue parts name handle 46 (fun p hp' => validDymName_clean (hp p hp'))]
+  exact ⟨parseAddrLit_glue bech parts name handle 64 (Or.inr rfl) hp hn hh,
+    parseAddrLit_glue bech parts name handle 46 (Or.inl rfl) hp hn hh⟩
+
 /-- an address text names one and only one (sub-name, name, handle) -/
 theorem dymname_address_format_injective (parts parts' : List Bytes) (name name' handle handle' : Bytes)
     (hp : ∀ p ∈ parts, validDymName p = true) (hn : validDymName name = true)
@@ -184,9 +222,11 @@ theorem dymname_address_roundtrip (bech : Bytes → Bool) (host : Bytes) (t : Ch
     (parts : List Bytes) (name c : Bytes)
     (hp : ∀ p ∈ parts, validDymName p = true) (hn : validDymName name = true)
     (hcv : validChainIdFormat c = true) (hhost : host ∉ tableAliases t) (hc : c ∉ tableAliases t) :
-    parseAddr bech (formatAddr (joinDot parts) name (toHandle t c)) = some (joinDot parts, name, toHandle t c) ∧
+    parseAddrLit bech (formatAddr (joinDot parts) name (toHandle t c)) = some (joinDot parts, name, toHandle t c) ∧
+      parseAddr bech (formatAddr (joinDot parts) name (toHandle t c)) = some (joinDot parts, name, toHandle t c) ∧
       resolveChain host t (toHandle t c) = c ∧ reachesConfig host t (toHandle t c) c = true := by
-  refine ⟨dymname_address_parse_format bech parts name _ hp hn (handle_valid t h c hcv),
+  refine ⟨(dymname_address_parse_format_lit bech parts name _ hp hn (handle_valid t h c hcv)).1,
+    dymname_address_parse_format bech parts name _ hp hn (handle_valid t h c hcv),
     handle_translates_back host t h c hhost hc, ?_⟩
   simp [reachesConfig, handle_translates_back host t h c hhost hc]
 
